@@ -97,6 +97,34 @@ def C28_section_open_bound():
 
 
 @case
+def C28_optional_absent():
+    """Omitted OPTIONAL argument: PRESENT(o) becomes .false. but the dummy stays referenced (undeclared) in the dead branch."""
+    return marked(args='k', decls='integer, intent(inout) :: k', actuals='k',
+                  dummies='r, o', cdecls='integer, intent(inout) :: r\n    integer, intent(in), optional :: o',
+                  cbody='if (present(o)) then\n      r = r + o\n    end if')
+
+
+@case
+def C28_call_in_one_line_if():
+    """`IF (c) CALL inner(k)`: the inlined body is placed inside the one-line IF."""
+    src = Sourcefile.from_source('''
+subroutine caller(n, k)
+  integer, intent(in) :: n
+  integer, intent(inout) :: k
+  if (n > 0) call inner(k)
+contains
+  subroutine inner(r)
+    integer, intent(inout) :: r
+    r = r + 1
+    r = 2*r
+  end subroutine inner
+end subroutine caller
+''')
+    inline_internal_procedures(src['caller'])
+    return src['caller'].to_fortran()
+
+
+@case
 def C28_print_in_callee():
     """PRINT / WRITE are opaque Intrinsic nodes: dummies and renamed locals inside them are not rewritten."""
     return marked(args='k', decls='integer, intent(inout) :: k\n    integer :: t', actuals='k',
